@@ -31,6 +31,31 @@ fn exec_inner(t: &[&str]) -> Option<String> {
             match p.market_status().openness(MarketStatusFlagContainer::from_value(pol)) {
                 MarketOpenness::Open => "Open", MarketOpenness::Closed => "Closed", MarketOpenness::Skip => "Skip" }.into()
         }
+        ("cfg", 5) => {
+            use gmsol_utils::price::market_status::MarketStatusFlag as F;
+            use gmsol_utils::token_config::FeedConfig;
+            const FLAGS: [F; 6] = [F::AllowUnknown, F::AllowPreMarket, F::HaltRegularHours, F::AllowPostMarket, F::AllowOvernight, F::AllowClosed];
+            let pol: u8 = t[2].parse().ok()?; let st: u8 = t[4].parse().ok()?;
+            if pol >= 64 { return None; }
+            let key = |n: u64| { let mut b = [0u8; 32]; b[..8].copy_from_slice(&n.to_le_bytes()); anchor_lang::prelude::Pubkey::new_from_array(b) };
+            let mut feed_no: u64 = 1;
+            let mut c = FeedConfig::new(key(1));
+            for (i, f) in FLAGS.iter().enumerate() { if pol >> i & 1 == 1 { c.set_market_status_flag(*f, true); } }
+            if t[3] != "-" { for op in t[3].split(',') {
+                let (k, rest) = op.split_at(1);
+                match k {
+                    "f" => { let n: u64 = rest.parse().ok()?; c = c.with_feed(key(n)); feed_no = n; }
+                    "t" => { c = c.with_timestamp_adjustment(rest.parse().ok()?); }
+                    "d" => { let n: u32 = rest.parse().ok()?; c = c.with_max_deviation_factor(if n == 0 { None } else { Some(n as u128 * FeedConfig::RATIO_MULTIPLIER) }).ok()?; }
+                    "s" => { let (i, b) = rest.split_once(':')?; let i: usize = i.parse().ok()?; if i >= 6 || (b != "0" && b != "1") { return None; } c.set_market_status_flag(FLAGS[i], b == "1"); }
+                    _ => return None,
+                }
+            } }
+            if *c.feed() != key(feed_no) { return Some("feed-lost".into()); }
+            let ratio = c.max_deviation_factor().map(|f| f / FeedConfig::RATIO_MULTIPLIER).unwrap_or(0);
+            let o = match mk(st, 0, 0, 0).market_status().openness(c.market_status_flags()) { MarketOpenness::Open => "Open", MarketOpenness::Closed => "Closed", MarketOpenness::Skip => "Skip" };
+            format!("{feed_no} {} {ratio} {} {o}", c.timestamp_adjustment(), c.market_status_flags().into_value())
+        }
         ("secs", 4) => {
             let pf: u8 = t[2].parse().ok()?; let diff: u32 = t[3].parse().ok()?;
             match mk(0, pf, diff, 0).last_update_diff_secs() { Some(d) => format!("ok {d}"), None => "none".into() }
@@ -97,6 +122,12 @@ fn u32_gen(r: &mut Rng) -> u32 {
 }
 
 fn gen_req(r: &mut Rng) -> String {
+    if r.chance(1, 12) {
+        // a history on one feed configuration: flags set, then feed / adjustment / ratio switched, in any order
+        let n = r.range(1, 7);
+        let ops: Vec<String> = (0..n).map(|_| match r.below(5) { 0 | 1 => format!("s{}:{}", r.below(6), r.below(2)), 2 => format!("f{}", r.range(2, 50)), 3 => format!("t{}", r.below(100)), _ => format!("d{}", r.below(1000)) }).collect();
+        return format!("mopen cfg {} {} {}", r.below(64), ops.join(","), r.below(8));
+    }
     match r.below(10) {
         0 => format!("mopen openness {} {}", if r.chance(4, 5) { r.below(8) } else { r.below(256) }, r.below(256)),
         1 => format!("mopen secs {} {}", r.below(8), u32_gen(r)),
@@ -138,6 +169,23 @@ fn main() {
         let resp = exec(&req);
         out.stat(&format!("op.{}", req.split(' ').nth(1).unwrap_or("?")));
         out.stat(&format!("resp.{}", resp.split(' ').next().unwrap_or("")));
+        if req.starts_with("mopen cfg ") {
+            // independent oracle: the policy after the history = the initial policy with only the `s` ops applied,
+            // and the verdict is the one that policy gives
+            let t: Vec<&str> = req.split(' ').collect();
+            let f: Vec<&str> = resp.split(' ').collect();
+            if t.len() == 5 && f.len() == 5 {
+                let mut pol: u8 = t[2].parse().unwrap_or(0);
+                if t[3] != "-" { for op in t[3].split(',') { if let Some(rest) = op.strip_prefix('s') { if let Some((i, b)) = rest.split_once(':') { let i: u8 = i.parse().unwrap_or(0); if b == "1" { pol |= 1 << i } else { pol &= !(1 << i) } } } } }
+                if f[3] != pol.to_string() { out.oracle_fail(&format!("the market-status policy of a feed changed without set_market_status_flag (expected flags {pol}, stored {})", f[3]), &req); }
+                let st: u8 = t[4].parse().unwrap_or(0);
+                let want = match policy_open(st, pol) { Some(true) => "Open", Some(false) => "Closed", None => if st == 0 { "Closed" } else { "?" } };
+                if want != "?" && policy_open(st, pol).is_some() && f[4] != want { out.oracle_fail("openness verdict differs from the policy set for this feed", &req); }
+                out.stat("oracle.cfg");
+            } else if resp != "bad-op" { out.oracle_fail(&format!("feed configuration history failed: {resp}"), &req); }
+            out.case_nt(&req, &resp, resp.ends_with("Open"));
+            continue;
+        }
         if resp != "bad-op" {
             match std::panic::catch_unwind(|| oracle(&req, &resp)) {
                 Ok(Ok(Some(tag))) => { out.stat("oracle.checked"); out.stat(&format!("class.{tag}")); }
